@@ -1,12 +1,13 @@
 import vf, asm2c
 U_UTIL = vf.Unit('cmdline/util.c', companions=[('cmdline/util.h', asm2c.translate_crc)])
+NOTE = 'table-driven CRC decided by induction over its loops (byte step, 4-byte slice step from an arbitrary CRC state) + bookkeeping on 0/1 bytes; see harness/C09_crc.c'
 FUNCS = ['crc32c_gen', 'crc32c_gen_plain', 'crc32c_x86', 'crc32c_x86_plain', 'crc32c_plain', 'crc32c_plain_char', 'CRC32C_0..3']
 def jobs(tier, seed, prop='C09'):
     quick = tier == 'quick'
     L = 12 if quick else 24
     J = []
     import os
-    for e in ('crc_tables', 'crc_step4', 'crc_tail', 'crc_gen_def', 'crc_x86_def', 'crc_incremental', 'crc_detect'):
+    for e in ('crc_tables', 'crc_byte', 'crc_step4', 'crc_bookkeeping', 'crc_x86_def', 'crc_detect'):
         J.append(vf.Job('%s/crc/%s' % (prop, e), [], harness_text={'h.c': open(os.path.join(vf.VERIF, 'harness/C09_crc.c')).read(), 'util.h': asm2c.translate_crc(open(os.path.join(vf.REPO, 'cmdline/util.h')).read())},
                         units=[U_UTIL], entry=e, defines=['L=%d' % L], unwind=L + 9, unwindset=['emu_crc32_bits.0:65', '__CPROVER_file_local_crc_emu_h_emu_crc32_bits.0:65'], timeout=900 if quick else 3600, mem_gb=6, funcs=FUNCS, cost=30,
                         sample={'entry': e, 'length<=': L, 'bytes': 'symbolic', 'initial_crc': 'symbolic'}, native_defines=[]))
